@@ -16,7 +16,7 @@ PAL = {
     'orbital_period': [1.5, 1.769, 3.0, 6.1, 12.3],
     'orbital_frequency': [2 * math.pi / (86400. * p) for p in (1.4, 1.769, 2.9, 6.5, 11.0)],
     'semi_major_axis': [3.0e8, 4.217e8, 8.0e8, 4.376e9],
-    'eccentricity': [0.0041, 0.01, 0.05, 0.1, 0.3],
+    'eccentricity': [0.0041, 0.01, 0.05, 0.1, 0.3, 0.0, 0.6],
     'obliquity': [0.0, 0.01, 0.1, 0.4, 1.0],
     'spin_period': [1.0, 1.769, 2.5, 10.0],
     'spin_frequency': [2 * math.pi / (86400. * p) for p in (0.9, 1.769, 2.2, 8.0, -3.0, 1.4)],   # incl. retrograde and = an orbital palette value
